@@ -1,4 +1,8 @@
 -- Root of the `PwVerif` library: every property file (and through them the models and lemmas).
+import PwVerif.Props.C01
+import PwVerif.Props.C03
+import PwVerif.Props.C07
+import PwVerif.Props.C08
 import PwVerif.Props.C10
 import PwVerif.Props.C13
 import PwVerif.Props.C14
